@@ -138,7 +138,11 @@ func (loc *Location) CheckWrite(ctx *Context) error {
 	if loc.IsReadOnly(ctx) {
 		return fmt.Errorf("Read only")
 	}
-	key, _, _ := GetPropString(ctx, loc.state, "writeKey", "")
+	key, _, err := GetPropString(ctx, loc.state, "writeKey", "")
+	if err != nil {
+		// A key we cannot read is not "no key".
+		return fmt.Errorf("Write operation not allowed: can't read key: %v", err)
+	}
 	Log(DEBUG, ctx, "Location.CheckWrite", "location", loc.Name, "key", key)
 	if key == "" || ctx.WriteKey == key {
 		return nil
@@ -148,7 +152,11 @@ func (loc *Location) CheckWrite(ctx *Context) error {
 
 func (loc *Location) CheckRead(ctx *Context) error {
 	Log(DEBUG, ctx, "Location.CheckRead", "location", loc.Name)
-	key, _, _ := GetPropString(ctx, loc.state, "readKey", "")
+	key, _, err := GetPropString(ctx, loc.state, "readKey", "")
+	if err != nil {
+		// A key we cannot read is not "no key".
+		return fmt.Errorf("Read operation not allowed: can't read key: %v", err)
+	}
 	Log(DEBUG, ctx, "Location.CheckRead", "location", loc.Name, "key", key)
 	if key == "" || ctx.ReadKey == key {
 		return nil
